@@ -206,7 +206,7 @@ func runUnit(u unit) unitResult {
 
 func workerMain() {
 	// address-space limit: a decoder that allocates what a damaged length field says dies here, not the machine
-	lim := uint64(12) << 30
+	lim := uint64(3584) << 20 // the worker's own address space is about 2 GiB (Go runtime reservations)
 	syscall.Setrlimit(syscall.RLIMIT_AS, &syscall.Rlimit{Cur: lim, Max: lim})
 	var in struct {
 		Units []unit `json:"units"`
